@@ -96,7 +96,7 @@ type tableMon struct {
 	// ledger
 	in, out      int64
 	topups       []*topup
-	pendingTopup *topup
+	pendingTopup map[string]*topup // per calling task: membership calls of different tasks overlap
 	ledgerOff    string
 	lastAuditSum int64
 
@@ -109,6 +109,7 @@ type tableMon struct {
 	turnAt             int64
 	lastExtAtMs        int64
 	lastExtD           int64
+	extCalls           []*extCall
 	extensions         map[string]extRec
 	turnStale          int64
 	lastDeadlineSeen   int64
@@ -1009,7 +1010,18 @@ func (m *tableMon) trackPhase(h *handRec, t *pt.Table, evKey string) {
 			}
 		}
 		c.Judged("C11.asked_set")
+		act := "ready"
+		if ev != "ReadyRequested" {
+			act = "pay"
+		}
 		for id, wnt := range want {
+			if wnt && !ph.asked[id] && m.answeredThisInstant(h, id, act, now) {
+				// the request was answered (by a caller that knew the hand state, or by an answer meant for
+				// the phase before) between the engine's step and its publication: the permission is gone
+				// again in the snapshot that announces the request
+				c.Probe("request_answered_before_it_was_published")
+				continue
+			}
 			if wnt != ph.asked[id] && h.tainted == "" {
 				c.Viol("C11", "C11.asked_set_wrong", map[string]any{"phase": ev}, "hand %d %s: %s should%s be asked but the published hand state says asked=%v", h.k, ev, id, map[bool]string{true: "", false: " not"}[wnt], ph.asked[id])
 				break
@@ -1022,6 +1034,20 @@ func (m *tableMon) trackPhase(h *handRec, t *pt.Table, evKey string) {
 		// published before settlement; nothing to judge here
 		_ = ev
 	}
+}
+
+func (m *tableMon) answeredThisInstant(h *handRec, id, act string, now int64) bool {
+	for _, a := range h.actionsP {
+		if a.id == id && a.action == act && (a.pending || (a.ok && a.atMs == now)) {
+			return true
+		}
+	}
+	for _, a := range h.actions {
+		if a.id == id && a.action == act && a.ok && a.atMs == now {
+			return true
+		}
+	}
+	return false
 }
 
 func (m *tableMon) checkPhaseLate(h *handRec, ph *phaseRec, now int64) {
@@ -1100,6 +1126,7 @@ func (m *tableMon) checkDeadline(h *handRec, t *pt.Table) {
 	want := m.turnAt + int64(t.Meta.ActionTime)
 	c.Judged("C15.deadline_on_request")
 	ext := m.extensions[m.turnKey(gs)]
+	ext.total += m.floatingExtensions(m.turnKey(gs))
 	switch {
 	case st.CurrentActionEndAt == want:
 		m.turnOK = true
@@ -1118,7 +1145,17 @@ func (m *tableMon) checkDeadline(h *handRec, t *pt.Table) {
 
 type extRec struct{ total int64 }
 
-func (m *tableMon) extensionInvoke(turnKey string, d int64) {
+// extCall: one deadline extension call. The call waits for the engine lock, so a call invoked in one
+// turn may take effect in the next: such a call "floats" and may or may not be part of the next turn's
+// deadline.
+type extCall struct {
+	key     string
+	d       int64
+	pending bool
+	retKey  string
+}
+
+func (m *tableMon) extensionInvoke(turnKey string, d int64) *extCall {
 	m.lastExtAtMs, m.lastExtD = m.c.NowMs(), d
 	if m.extensions == nil {
 		m.extensions = map[string]extRec{}
@@ -1126,6 +1163,28 @@ func (m *tableMon) extensionInvoke(turnKey string, d int64) {
 	e := m.extensions[turnKey]
 	e.total += d
 	m.extensions[turnKey] = e
+	ec := &extCall{key: turnKey, d: d, pending: true}
+	m.extCalls = append(m.extCalls, ec)
+	return ec
+}
+
+func (m *tableMon) extensionReturn(ec *extCall) {
+	ec.pending = false
+	if tb := m.w.eng.GetTable(); tb != nil && tb.State.GameState != nil {
+		ec.retKey = m.turnKey(tb.State.GameState)
+	}
+}
+
+// floatingExtensions: seconds of extension calls invoked under another turn that were still in flight
+// when this turn began (or returned during it).
+func (m *tableMon) floatingExtensions(curKey string) int64 {
+	var sum int64
+	for _, ec := range m.extCalls {
+		if ec.key != curKey && (ec.pending || ec.retKey == curKey) {
+			sum += ec.d
+		}
+	}
+	return sum
 }
 
 func (m *tableMon) closeTurn(h *handRec) {
